@@ -95,7 +95,7 @@ def CORRELATION(x, y=None, maxlags=None, norm='unbiased'):
     # N is the max of x and y
     N = max(len(x), len(y))
     if len(x) < N:
-        x = y.copy()
+        x = x.copy()
         x.resize(N, refcheck=False)
     if len(y) < N:
         y = y.copy()
